@@ -250,6 +250,14 @@ def state_catalogue():
     g("nested_rep", lambda: star(seq(ref("Y"), lit("b"))), extra_rules=[rule("Y", seq(state(s_inc("k")), cls(ranges=[("a", "b")])))])
     g("nested_opt", lambda: seq(opt(seq(act(seq(state(s_inc("k")), lit("a")), b_rec("in")), lit("b"))), opt(lit("a"))))
     g("nested_plus", lambda: seq(plus(seq(label("q", seq(state(s_inc("k")), lit("a"))), opt(lit("b")))), star(seq(label("q", ref("Y")), lit("b")))), extra_rules=[rule("Y", seq(state(s_inc("k")), lit("a")))])
+    # mutually recursive rules, the state block in one of them, a sequence that reaches it only through the
+    # other one and then fails (absorbed by ?): both reference orders
+    blk = lambda: rule("Blk", seq(lit("a"), ref("Body"), lit("b"), state(s_inc("k"))))
+    body = lambda: rule("Body", star(choice(ref("Blk"), lit("c"))))
+    par = lambda: rule("Par", seq(lit("d"), ref("Body"), lit("d")))
+    g("mutrec1", lambda: seq(star(ref("Blk")), opt(ref("Par")), star(cls(chars="abd"))), extra_rules=[par(), blk(), body()])
+    g("mutrec2", lambda: seq(opt(ref("Par")), star(ref("Blk")), star(cls(chars="abd"))), extra_rules=[blk(), par(), body()])
+    g("mutrec3", lambda: seq(opt(seq(lit("d"), ref("Body"), lit("d"))), star(ref("Blk")), star(cls(chars="abd"))), extra_rules=[body(), blk()])
     # keys that do not exist when the parse starts: a key first written inside a
     # region that is rolled back must be absent (zero) afterwards
     def gf(name, x):
@@ -311,6 +319,12 @@ def throw_catalogue():
                    rule("F", sib_first()), rule("G", sib_second())])
     g("siblings2", [rule("S", choice(act(label("p", recover(seq(ref("F"), ref("G")), ["ea"], act(lit("y"), rec("outer")))), rec("s1")), act(star(any_()), rec("s2")))),
                     rule("F", sib_first()), rule("G", sib_second())])
+    # a choice written inline in a recovery expression, evaluated at throw sites inside two different rules
+    g("rcvchoice", [rule("S", act(label("x", recover(choice(ref("Add"), ref("Del")), ["l1"], choice(act(lit("a"), rec("ra")), act(lit("d"), rec("rd"))))), rec("s"))),
+                    rule("Add", seq(and_(lit("a")), throw("l1"))), rule("Del", seq(and_(lit("d")), throw("l1")))])
+    # a label bound in the guarded operand is in scope of a code block of the recovery operand (one scope for both)
+    g("lblshare", [rule("S", act(label("x", recover(seq(label("k", cls(ranges=[("a", "b")])), choice(lit("b"), throw("l1"))), ["l1"],
+                                                    act(seq(label("j", cls(chars="cd")), opt(lit("d"))), rec("r")))), rec("s")))])
     # throw under choice alternatives with state of labels
     g("labels", [rule("S", act(seq(label("x", lit("a")), label("y", recover(choice(lit("b"), throw("l1")), ["l1"], act(label("z", any_()), rec("r"))))), rec("s")))])
     return out
@@ -612,7 +626,15 @@ def random_grammars(seed, count, features=("pred", "label", "act"), depth=3):
         labels = [0]
         faults = [0]
 
-        def gen(depth, refs):
+        pool = "lblpool" in features
+        all_names = ["S"] + lower
+
+        def gen(depth, refs, scope=None, banned=frozenset(), norefs=False):
+            """scope: labels already bound in the current label scope (None: labels are not drawn here);
+            banned: failure labels whose recovery expression is being generated (throwing them would recurse);
+            norefs: inside a recovery expression no rule is referenced (a referenced rule could throw a banned label)."""
+            if norefs:
+                refs = []
             r = rnd.random()
             if depth <= 0 or r < 0.25:
                 if refs and rnd.random() < 0.3:
@@ -624,53 +646,98 @@ def random_grammars(seed, count, features=("pred", "label", "act"), depth=3):
             if "throw" in features:
                 kinds += ["throw", "recover", "recover"]
             kind = rnd.choice(kinds)
+            sub = lambda sc=scope, bn=banned, nr=norefs: gen(depth - 1, refs, sc, bn, nr)
+            new = lambda: (set() if pool else None)
             if kind == "state":
-                return seq(state(s_inc("k")), gen(depth - 1, refs))
+                return seq(state(s_inc("k")), sub())
             if kind == "obs":
-                return seq(andcode(p_state("k", rnd.randint(0, 2))), gen(depth - 1, refs))
+                return seq(andcode(p_state("k", rnd.randint(0, 2))), sub())
             if kind == "throw":
-                return choice(gen(depth - 1, refs), throw(rnd.choice(["l1", "l2"])))
+                free = [l for l in (["l1", "l2", "l3"] if "rcvgen" in features else ["l1", "l2"]) if l not in banned]
+                if not free:
+                    return rnd.choice(terms)()
+                return choice(sub(new()), throw(rnd.choice(free)))
             if kind == "recover":
-                labs = rnd.choice([["l1"], ["l2"], ["l1", "l2"]])
-                return recover(gen(depth - 1, refs), labs, act(rnd.choice(terms)(), b_rec()))
+                labs = rnd.choice([["l1"], ["l2"], ["l1", "l2"]] + ([["l3"], ["l2", "l3"]] if "rcvgen" in features else []))
+                sc = new()
+                guarded = sub(sc)
+                if "rcvgen" in features and rnd.random() < 0.6:
+                    # any expression may be a recovery expression, also one that uses recovery operators itself
+                    rx = gen(depth - 1, refs, sc, banned | frozenset(labs), True)
+                    if rnd.random() < 0.5:
+                        rx = act(rx, b_rec())
+                    return recover(guarded, labs, rx)
+                return recover(guarded, labs, act(rnd.choice(terms)(), b_rec()))
             if kind == "seq":
-                return seq(*[gen(depth - 1, refs) for _ in range(rnd.randint(2, 3))])
+                items = []
+                for k in range(rnd.randint(2, 3)):
+                    if (k > 0 and "rec" in features and not norefs and rnd.random() < 0.3
+                            and any(not _nullable(x, null) for x in items)):
+                        # a reference to ANY rule (itself, a later one) is fine once input has been consumed
+                        items.append(ref(rnd.choice(all_names)))
+                    else:
+                        items.append(sub())
+                return seq(*items)
             if kind == "choice":
-                return choice(*[gen(depth - 1, refs) for _ in range(rnd.randint(2, 3))])
+                return choice(*[sub(new()) for _ in range(rnd.randint(2, 3))])
             if kind in ("star", "plus"):
                 for _ in range(8):
-                    body = gen(depth - 1, refs)
-                    if not _nullable(body, null):
+                    body = sub(new())
+                    if not _nullable(body, null) and not has_open_ref(body):
                         return star(body) if kind == "star" else plus(body)
                 return plus(rnd.choice(terms[:4])())
             if kind == "opt":
-                return opt(gen(depth - 1, refs))
+                return opt(sub(new()))
             if kind == "and" and "pred" in features:
-                return and_(gen(depth - 1, refs))
+                return and_(sub(new()))
             if kind == "not" and "pred" in features:
-                return not_(gen(depth - 1, refs))
+                return not_(sub(new()))
             if kind == "label" and "label" in features:
+                if pool:
+                    if scope is None:
+                        return sub()
+                    free = [v for v in ("v1", "v2", "v3", "v4") if v not in scope]
+                    if not free:
+                        return sub()
+                    nm = rnd.choice(free)
+                    scope.add(nm)
+                    return label(nm, sub(set()))
                 labels[0] += 1
-                return label("v%d" % labels[0], gen(depth - 1, refs))
+                return label("v%d" % labels[0], sub())
             if kind == "act" and "act" in features:
                 if "fault" in features and faults[0] < 2 and rnd.random() < 0.7:
                     faults[0] += 1
                     if rnd.random() < 0.25:
-                        return seq(andcode(p_fault(faults[0] - 1)), gen(depth - 1, refs))
-                    return act(gen(depth - 1, refs), b_fault(faults[0] - 1))
-                return act(gen(depth - 1, refs), b_rec() if rnd.random() < 0.7 else b_text())
-            return gen(depth - 1, refs)
+                        return seq(andcode(p_fault(faults[0] - 1)), sub())
+                    return act(sub(), b_fault(faults[0] - 1))
+                return act(sub(), b_rec() if rnd.random() < 0.7 else b_text())
+            return sub()
+
+        def has_open_ref(e):
+            # a reference to a rule that is not defined yet: its nullability is unknown
+            found = [False]
+            def f(x):
+                if x["k"] == "ref" and x["name"] not in null:
+                    found[0] = True
+            walk(e, f)
+            return found[0]
 
         rules = []
         defs = {}
         for i, nm in enumerate(reversed(lower)):
             avail = [x for x in defs]
-            e = gen(depth - 1, avail)
+            e = gen(depth - 1, avail, None)  # (no label in the top scope of a helper rule: inlining would merge it into the caller's scope, finding F13)
             defs[nm] = e
             null[nm] = _nullable(e, null)
-        body = gen(depth, list(defs))
+        body = gen(depth, list(defs), set() if pool else None)
         labels[0] += 1
-        rules.append(rule("S", act(seq(label("v%d" % labels[0], body), label("rest", opt(any_()))), b_rec("s"))))
+        top = "top" if pool else "v%d" % labels[0]
+        s_items = [label(top, body), label("rest", opt(any_()))]
+        if "state" in features:
+            # the store as it is at the end of the parse is observed (one of the two predicates holds): a change
+            # that should have been rolled back shows even when nothing after it fails
+            s_items.append(choice(andcode(p_state("k", 0)), andcode(p_state("k", 1))))
+        rules.append(rule("S", act(seq(*s_items), b_rec("s"))))
         for nm in lower:
             rules.append(rule(nm, defs[nm]))
         n += 1
@@ -683,7 +750,7 @@ def random_grammars(seed, count, features=("pred", "label", "act"), depth=3):
             extra_entries = ["", lower[0]]
         else:
             extra_entries = None
-        g = grammar("rnd%s%d_%d" % ("".join(f[0] for f in features if f in ("state", "throw", "fault")), seed, n), rules, tags=["random"])
+        g = grammar("rnd%s%d_%d" % ("".join(f[0] for f in features if f in ("state", "throw", "fault", "rec", "lblpool", "rcvgen")), seed, n), rules, tags=["random"])
         if "fault" in features:
             if faults[0] == 0 or not uses_fault({"rules": rules}):
                 continue  # (a fault block drawn inside a discarded subtree does not count)
@@ -763,4 +830,37 @@ def random_lr(seed, count):
             s_body = seq(label("p", opt(lit("-"))), label("e", ref("E")))
         out.append(grammar("lrrnd%d_%d" % (seed, n), [rule("S", act(s_body, b_rec("s"))), e_rule,
                                                       rule("N", act(plus(cls(ranges=[("0", "1")])), b_text()))], needs_lr=True, tags=["random"]))
+    return out
+
+
+def random_class_merges(seed, count):
+    """Seeded random choices of classes and one-character literals (directly and through leaf
+    rules) over a-h: what -optimize-grammar merges into one class (C09, C10, C15)."""
+    rnd = random.Random(seed * 31337 + 5)
+    letters = "abcdefgh"
+    out = []
+    for n in range(count):
+        def one_class():
+            chars = "".join(rnd.sample(letters, rnd.randint(0, 2)))
+            ranges = []
+            for _ in range(rnd.randint(0, 2)):
+                a, b = sorted(rnd.sample(letters, 2))
+                ranges.append((a, b))
+            if not chars and not ranges:
+                ranges.append(tuple(sorted(rnd.sample(letters, 2))))
+            return cls(chars=chars, ranges=ranges, inv=rnd.random() < 0.15, i=ic)
+        ic = rnd.random() < 0.3
+        alts, rules = [], []
+        for k in range(rnd.randint(2, 4)):
+            if rnd.random() < 0.3:
+                a = lit(rnd.choice(letters), i=ic if rnd.random() < 0.8 else not ic)
+            else:
+                a = one_class()
+            if rnd.random() < 0.4:
+                nm = "L%d" % k
+                rules.append(rule(nm, a))
+                a = ref(nm)
+            alts.append(a)
+        # (no repetition: one merged class decides one byte, so the path count stays small at any input bound)
+        out.append(grammar("mrg%d_%d" % (seed, n), [rule("S", act(seq(label("x", choice(*alts)), label("y", opt(any_()))), b_rec("s")))] + rules, tags=["random"]))
     return out
